@@ -346,6 +346,8 @@ type Network struct {
 	stopped bool
 	wantHost *SimNode
 	leaving  map[int]*ItxRecord
+	idleAfterFair bool
+	lostPool map[int]bool // nodes that were restarted (their pending pool is legitimately gone)
 	// KeyLabel distinguishes key families
 	keyLabel string
 	// options for new nodes
@@ -361,6 +363,7 @@ type SubmittedTx struct {
 	Node  int
 	Step  int
 	Count int // how many times these exact bytes were submitted (duplicate content)
+	Inc   int // incarnation of the node that accepted it
 }
 
 type ItxRecord struct {
@@ -617,7 +620,7 @@ func (nw *Network) Submit(a *SimNode, tx []byte) {
 	if st, ok := nw.Submitted[key]; ok {
 		st.Count++
 	} else {
-		st := &SubmittedTx{Bytes: cp, Node: a.Idx, Step: nw.Step, Count: 1}
+		st := &SubmittedTx{Bytes: cp, Node: a.Idx, Step: nw.Step, Count: 1, Inc: a.Incarnation}
 		nw.Submitted[key] = st
 		nw.SubmitOrder = append(nw.SubmitOrder, st)
 	}
